@@ -243,6 +243,33 @@ def stepCore (e : Env) (line : String) : Env × String :=
       let some r1 := parseRat c1 | throw "bad rat"
       let ha ← lookup e a
       let (h, e) ← runM e (ptDiv ha r1); pure (bind1 e n h, "ok")
+    | ["pt.add", n, a, b] =>
+      let ha ← lookup e a; let hb ← lookup e b
+      let (h, e) ← runM e (ptAdd ha hb); pure (bind1 e n h, "ok")
+    | ["pt.neg", n, a] =>
+      let ha ← lookup e a
+      let (h, e) ← runM e (ptNeg ha); pure (bind1 e n h, "ok")
+    | ["ex.add", n, a, b] =>
+      let ha ← lookup e a; let hb ← lookup e b
+      let (h, e) ← runM e (exAdd ha hb); pure (bind1 e n h, "ok")
+    | ["ex.neg", n, a] =>
+      let ha ← lookup e a
+      let (h, e) ← runM e (exNeg ha); pure (bind1 e n h, "ok")
+    | ["ex.smul", n, c1, a] =>
+      let some r1 := parseRat c1 | throw "bad rat"
+      let ha ← lookup e a
+      let (h, e) ← runM e (exSmul r1 ha); pure (bind1 e n h, "ok")
+    | ["ex.sq", n, a] =>
+      let ha ← lookup e a
+      let (h, e) ← runM e (ptIp ha ha); pure (bind1 e n h, "ok")
+    | ["ex.subc", n, a, c1] =>
+      let some r1 := parseRat c1 | throw "bad rat"
+      let ha ← lookup e a
+      let (h, e) ← runM e (exSubConst ha r1); pure (bind1 e n h, "ok")
+    | ["ex.rsubc", n, c1, a] =>
+      let some r1 := parseRat c1 | throw "bad rat"
+      let ha ← lookup e a
+      let (h, e) ← runM e (do let t ← exSubConst ha r1; exNeg t); pure (bind1 e n h, "ok")
     | ["ex.leaf", n] => let (h, e) ← runM e (newLeafE); pure (bind1 e n h, "ok")
     | ["ex.ip", n, a, b] =>
       let ha ← lookup e a; let hb ← lookup e b
